@@ -61,6 +61,9 @@ type cluster struct {
 	viaHandlers bool
 	// commit requests to these participants are lost (C12 retry scenario)
 	loseCommit map[uint64]bool
+	// commit replies of these participants reach the initiator altered (C12 tampered commit replies)
+	tamperCommitReply map[uint64]bool
+	commitReplyKind   int
 	// a non-peer caller sends every message first (it must be refused and change nothing)
 	stranger                          string
 	strangerRefused, strangerAccepted int
@@ -236,10 +239,38 @@ func (r *router) Commit(ctx context.Context, recipient *core.Endpoint, account s
 	if r.c.tamper(fmt.Sprintf("commit>%d", recipient.ID)) {
 		r.c.hit = false // commit faults are not part of C13's fault family
 	}
+	var pub, sig []byte
 	if r.c.viaHandlers {
-		return r.hCommit(ctx, n, account, confirmationData)
+		pub, sig, err = r.hCommit(ctx, n, account, confirmationData)
+	} else {
+		pub, sig, err = n.proc.OnCommit(ctx, r.from, account, confirmationData)
 	}
-	return n.proc.OnCommit(ctx, r.from, account, confirmationData)
+	if err != nil || r.c.tamperCommitReply == nil || !r.c.tamperCommitReply[recipient.ID] {
+		return pub, sig, err
+	}
+	// the reply direction of commit (C12): the participant's reply reaches the initiator altered
+	var delta bls.SecretKey
+	delta.SetByCSPRNG()
+	switch r.c.commitReplyKind {
+	case 0: // a confirmation signature that is not the participant's share signature over the data
+		var orig bls.Sign
+		if orig.Deserialize(sig) != nil {
+			return pub, sig, err
+		}
+		forged := delta.SignByte(confirmationData)
+		vsym.Assume(!forged.IsEqual(&orig))
+		vsym.Reach("commit-reply-signature-tampered")
+		return pub, forged.Serialize(), nil
+	default: // a composite public key other than the one the others report
+		var orig bls.PublicKey
+		if orig.Deserialize(pub) != nil {
+			return pub, sig, err
+		}
+		forged := delta.GetPublicKey()
+		vsym.Assume(!forged.IsEqual(&orig))
+		vsym.Reach("commit-reply-pubkey-tampered")
+		return forged.Serialize(), sig, nil
+	}
 }
 
 func (r *router) Abort(ctx context.Context, recipient *core.Endpoint, account string) error {
